@@ -276,9 +276,13 @@ def run_js(src, opts=None, ctx=None):
     except RecursionError as e:
         rec["out"] = "hosterr"
         rec["err"] = {"cls": "RecursionError", "msg": "", "kind": "host", "site": escape_site(e)}
-    except MemoryError:
+    except MemoryError as e:
         rec["out"] = "hosterr"
-        rec["err"] = {"cls": "MemoryError", "msg": "", "kind": "host", "site": None}
+        try:
+            site = escape_site(e)
+        except Exception:
+            site = None
+        rec["err"] = {"cls": "MemoryError", "msg": "", "kind": "host", "site": site}
     except JSError as e:
         rec["out"] = "jserr"
         rec["err"] = describe_exc(e)
